@@ -16,7 +16,6 @@ CFG = dict(
     technique="Coq proof by simulation (compiled code with callees bound to code ids against source with callees by name) and induction over chunk lists + model/implementation correspondence evaluated in Coq",
     assumptions=["the order in which genGlobalVarDecl initialises the variables of one chunk is source order (true for declaration-ordered programs; the general case is C15)",
                  "compile errors other than the three modelled (mixed chunk, undefined function, definition loop) and the state left behind by a failed chunk are outside the model",
-                 "the Compile-all-then-Execute-all fold is validated by correspondence only (no theorem)",
                  "sessions that redefine functions are proved equal to the contract only through C11_redefine_local_full; the stream of histories is validated by correspondence"],
 )
 CFG["id"] = "C11"
